@@ -6,6 +6,7 @@
   model of `powerLevelsEventAllowed` accepts satisfies it.
 -/
 import VModel.Auth
+import VProofs.AuthRulesBase
 namespace V.C08
 open V V.Json V.GoJson V.Auth
 
@@ -17,7 +18,16 @@ def namedLevels : List (PowerLevels → Int) :=
 structure NoEscalation (L : Int) (sender : Bytes) (old new : PowerLevels) : Prop where
   /-- every named threshold that changes was at most `L` and is set to at most `L` -/
   named : ∀ f ∈ namedLevels, f new ≠ f old → f old ≤ L ∧ f new ≤ L
-  /-- the level required for ANY event type (listed or not, effective value) that changes was ≤ L and stays ≤ L -/
+  /-- the level required for ANY event type (listed or not) that changes was ≤ L and stays ≤ L.
+      READING (DESIGN.md §6.1 D3 / D4; audit item A7): the value compared is the EFFECTIVE level of the type for a
+      NON-state event — the `events` entry when there is one, else `events_default` (`invite` for
+      m.room.third_party_invite) — on both sides.  So "nothing whose current value is above the sender's level has been
+      changed" is about that value: ADDING an entry for a type that had none is judged against `events_default`, not
+      against `state_default`, even though for state events of that type the threshold in force was `state_default`
+      (e.g. `state_default` 100, sender at 50 with `events["m.room.power_levels"] = 50`, adds
+      `events["m.room.join_rules"] = 0`: accepted, `events_default` 0 → 0 is no change; Matrix rule 10.7 and Synapse accept
+      it as well — they look at the `events` map entries only).  Under the literal reading with `state_default` the
+      example is an escalation; it is recorded as part of departure D4. -/
   events : ∀ t : Bytes, new.eventLevel t false ≠ old.eventLevel t false →
     old.eventLevel t false ≤ L ∧ new.eventLevel t false ≤ L
   /-- every user entry (present before or after) whose effective level changes: the new level is ≤ L, and
@@ -105,11 +115,12 @@ theorem checks_imply_no_escalation (L : Int) (sender : Bytes) (old new : PowerLe
   ⟨accepted_levels_named L old new h1, accepted_levels_events L old new h1, accepted_levels_users L sender old new h2⟩
 
 /-- Notification levels (room versions whose table entry is checkPowerLevelEventV2 / V3): a changed
-    notification level is set to ≤ the sender's level and was strictly below it (departure D11). -/
-theorem accepted_notifications (sender : Bytes) (old new : PowerLevels) (h : checkNotificationLevels sender old new = true) :
+    notification level is set to ≤ the sender's level `L` and was strictly below it (departure D11).  Which `L` the
+    check is made at: `accepted_pl_notifications`. -/
+theorem accepted_notifications (L : Int) (old new : PowerLevels) (h : checkNotificationLevels L old new = true) :
     ∀ k : Bytes, (k ∈ new.notifications.map (·.1) ∨ k ∈ old.notifications.map (·.1)) →
       new.notificationLevel k ≠ old.notificationLevel k →
-      new.notificationLevel k ≤ old.userLevel sender ∧ old.notificationLevel k < old.userLevel sender := by
+      new.notificationLevel k ≤ L ∧ old.notificationLevel k < L := by
   intro k hk hne
   unfold checkNotificationLevels notificationKeys at h
   have := List.all_eq_true.mp h k (List.mem_append.mpr hk)
@@ -190,16 +201,18 @@ theorem v12_no_creator_in_users (a : Ctx) (e : Event) (old new : PowerLevels) (r
   have e2 : ("checkPowerLevelEventV3" == "checkPowerLevelEventV2") = false := by decide
   have e3 : ("checkPowerLevelEventV3" == "checkPowerLevelEventV3") = true := by decide
   simp only [e1, e2, e3, Bool.false_eq_true, if_false, if_true] at h
-  by_cases hn : checkNotificationLevels e.sender old new = true
-  · simp only [hn, Bool.not_true, Bool.false_eq_true, if_false] at h
-    cases hce : a.createEvent with
-    | none => simp [hce] at h
-    | some ce =>
-      simp only [hce] at h
-      cases hcc : decodeCreateContent ce.content with
-      | none => simp [hcc, notAllowed] at h
-      | some cc =>
-        simp only [hcc] at h
+  cases hce : a.createEvent with
+  | none => simp [hce] at h
+  | some ce =>
+    simp only [hce] at h
+    cases hcc : decodeCreateContent ce.content with
+    | none => simp [hcc, notAllowed] at h
+    | some cc =>
+      simp only [hcc] at h
+      generalize (if (ce.sender :: cc.additionalCreators).contains e.sender = true then creatorPowerLevel
+        else old.userLevel e.sender) = L at h
+      by_cases hnl : checkNotificationLevels L old new = true
+      · simp only [hnl, Bool.not_true, Bool.false_eq_true, if_false] at h
         by_cases hany : (new.users.any fun kv => (ce.sender :: cc.additionalCreators).contains kv.fst) = true
         · exfalso
           simp only [hany, if_true, failErr] at h
@@ -212,46 +225,60 @@ theorem v12_no_creator_in_users (a : Ctx) (e : Event) (old new : PowerLevels) (r
             exact hany (List.any_eq_true.mpr ⟨kv, hkv, hc⟩)
           simp only [List.contains_eq_mem, List.mem_cons, decide_eq_true_eq, not_or] at hn
           exact hn
-  · simp [hn, notAllowed] at h
+      · simp [hnl, notAllowed] at h
 
-/-- **Version 10 and later (parseIntegerPowerLevels): every level in an accepted content is an integer literal.** -/
-theorem integer_only_levels (kvs : List (Bytes × JVal)) (d p : PowerLevels)
+/-- **Version 10 and later (parseIntegerPowerLevels): every level in an accepted content is an integer literal** — the
+    content satisfies the independent predicate `AuthRules.integerContent` (no `null`, no string, no float, no
+    non-object where an object of levels belongs). -/
+theorem integer_only_levels (c : Option JVal) (d p : PowerLevels) (h : parseIntegerPowerLevels c d = some p) :
+    AuthRules.integerContent c = true :=
+  AuthRules.parseInteger_sound h
+
+/-- … spelled out for a content that is a JSON object: each named level that is present is an integer literal in range,
+    and `users` / `events` / `notifications`, when present, are objects all of whose values are such literals. -/
+theorem integer_only_levels_spelled (kvs : List (Bytes × JVal)) (d p : PowerLevels)
     (h : parseIntegerPowerLevels (some (.obj kvs)) d = some p) :
-    ∀ k ∈ [b!"ban", b!"invite", b!"kick", b!"redact", b!"users_default", b!"events_default", b!"state_default"],
-      ∀ v, lookupField kvs k = some v → v = .null ∨ ∃ lit n, v = .num lit ∧ parseInt64 lit = some n := by
-  intro k hk v hv
-  unfold parseIntegerPowerLevels at h
-  simp only at h
-  split at h
-  · cases h
-  · rename_i hne
-    simp only [Bool.or_eq_true, not_or, Bool.not_eq_true] at hne
-    have key : (decInt64 0 (some v)).err = false ∨ True := Or.inr trivial
-    have herr : ∀ dflt, (decInt64 dflt (lookupField kvs k)).err = false := by
-      intro dflt
-      simp only [List.mem_cons, List.not_mem_nil, or_false] at hk
-      have e0 : ∀ a b, (decInt64 a (lookupField kvs k)).err = (decInt64 b (lookupField kvs k)).err := by
-        intro a b; unfold decInt64; split <;> try rfl
-        split <;> rfl
-      rcases hk with rfl | rfl | rfl | rfl | rfl | rfl | rfl
-      · rw [e0 dflt d.ban]; exact hne.1.1.1.1.1.1.1.1.1
-      · rw [e0 dflt d.invite]; exact hne.1.1.1.1.1.1.1.1.2
-      · rw [e0 dflt d.kick]; exact hne.1.1.1.1.1.1.1.2
-      · rw [e0 dflt d.redact]; exact hne.1.1.1.1.1.1.2
-      · rw [e0 dflt d.usersDefault]; exact hne.1.1.1.1.1.2
-      · rw [e0 dflt d.eventsDefault]; exact hne.1.1.1.1.2
-      · rw [e0 dflt d.stateDefault]; exact hne.1.1.1.2
-    have := herr 0
+    (∀ k ∈ AuthRules.namedLevelKeys, ∀ v, lookupField kvs k = some v → ∃ lit n, v = .num lit ∧ parseInt64 lit = some n) ∧
+    (∀ k ∈ [b!"users", b!"events", b!"notifications"], ∀ v, lookupField kvs k = some v →
+      ∃ m, v = .obj m ∧ ∀ kv ∈ m, ∃ lit n, kv.2 = .num lit ∧ parseInt64 lit = some n) := by
+  have hi := integer_only_levels _ d p h
+  unfold AuthRules.integerContent AuthRules.contentFields at hi
+  simp only [Bool.and_eq_true, List.all_eq_true] at hi
+  have lit_of : ∀ v, AuthRules.isIntegerLiteral v = true → ∃ lit n, v = .num lit ∧ parseInt64 lit = some n := by
+    intro v hv
+    unfold AuthRules.isIntegerLiteral at hv
+    cases v with
+    | num lit =>
+      simp only at hv
+      cases hp : parseInt64 lit with
+      | none => simp [hp] at hv
+      | some n => exact ⟨lit, n, rfl, hp⟩
+    | _ => simp at hv
+  constructor
+  · intro k hk v hv
+    have := hi.1 k hk
     rw [hv] at this
-    unfold decInt64 at this
-    split at this
-    · cases ‹some v = none›
-    · rename_i heq; cases heq; exact Or.inl rfl
-    · rename_i lit heq; cases heq
-      split at this
-      · rename_i n hn; exact Or.inr ⟨lit, n, rfl, hn⟩
-      · cases this
-    · cases this
+    exact lit_of v this
+  · intro k hk v hv
+    have := hi.2 k hk
+    rw [hv] at this
+    unfold AuthRules.isIntegerMap at this
+    cases v with
+    | obj m =>
+      simp only [List.all_eq_true] at this
+      exact ⟨m, rfl, fun kv hkv => lit_of kv.2 (this kv hkv)⟩
+    | _ => simp at this
+
+/-- the defect repaired in 33ac4f7, kernel-checked on the former failing inputs: `null` for a level, for a map of
+    levels, or for a value of such a map is refused by the integer-only parser (and an integer content still parses) -/
+example :
+    parseIntegerPowerLevels (some (.obj [(b!"ban", .null)])) PowerLevels.defaults = none ∧
+    parseIntegerPowerLevels (some (.obj [(b!"users", .obj [(b!"@a:hs1", .null)])])) PowerLevels.defaults = none ∧
+    parseIntegerPowerLevels (some (.obj [(b!"events", .null)])) PowerLevels.defaults = none ∧
+    parseIntegerPowerLevels (some (.obj [(b!"events", .obj [(b!"m.room.name", .null)])])) PowerLevels.defaults = none ∧
+    parseIntegerPowerLevels (some (.obj [(b!"notifications", .obj [(b!"room", .null)])])) PowerLevels.defaults = none ∧
+    (parseIntegerPowerLevels (some (.obj [(b!"ban", .num b!"60"), (b!"users", .obj [(b!"@a:hs1", .num b!"50")])])) PowerLevels.defaults).isSome = true := by
+  decide
 
 /-- Which registered versions run which power-level check / parser (regenerated table vs the specification:
     notification levels from v6, creators excluded in v12, integer-only levels from v10). -/
@@ -393,12 +420,20 @@ theorem accepted_history (C : Int) (run : List (Ctx × Event))
       · exact hmem
 
 /-- Notification levels, end to end: in the versions whose table entry is checkPowerLevelEventV2 / V3 (room version 6
-    and later, see `pl_columns_eq_spec`) an accepted power-levels event passed `checkNotificationLevels`, hence
-    `accepted_notifications` applies to it. -/
+    and later, see `pl_columns_eq_spec`) an accepted power-levels event passed `checkNotificationLevels` at the sender's
+    level `L`, hence `accepted_notifications` applies to it at that level.  `L` is the sender's level in the old content —
+    or, in version 12 (checkPowerLevelEventV3), the creators' level 2^53 when the sender is the create event's sender or
+    one of its `additional_creators` (creators are privileged: repaired in 548eba1; before, a creator was judged at
+    `users_default`). -/
 theorem accepted_pl_notifications (a : Ctx) (e : Event) (old new : PowerLevels) (row : VGen.VersionRow)
     (hrow : e.row = some row)
     (hv : row.checkPowerLevelEvent = "checkPowerLevelEventV2" ∨ row.checkPowerLevelEvent = "checkPowerLevelEventV3")
-    (h : a.checkPowerLevelEvent e old new = .ok ()) : checkNotificationLevels e.sender old new = true := by
+    (h : a.checkPowerLevelEvent e old new = .ok ()) :
+    ∃ L, checkNotificationLevels L old new = true ∧
+      (L = old.userLevel e.sender ∨
+       (L = creatorPowerLevel ∧ row.checkPowerLevelEvent = "checkPowerLevelEventV3" ∧
+        ∃ ce cc, a.createEvent = some ce ∧ decodeCreateContent ce.content = some cc ∧
+          (e.sender = ce.sender ∨ e.sender ∈ cc.additionalCreators))) := by
   unfold Ctx.checkPowerLevelEvent at h
   simp only [hrow] at h
   have e1 : ("checkPowerLevelEventV2" == "checkPowerLevelEventV1") = false := by decide
@@ -406,11 +441,54 @@ theorem accepted_pl_notifications (a : Ctx) (e : Event) (old new : PowerLevels) 
   have e3 : ("checkPowerLevelEventV3" == "checkPowerLevelEventV1") = false := by decide
   have e4 : ("checkPowerLevelEventV3" == "checkPowerLevelEventV2") = false := by decide
   have e5 : ("checkPowerLevelEventV3" == "checkPowerLevelEventV3") = true := by decide
-  by_cases hn : checkNotificationLevels e.sender old new = true
-  · exact hn
-  · exfalso
-    rcases hv with hv | hv <;>
-      simp [hv, e1, e3, e4, hn, notAllowed] at h
+  rcases hv with hv | hv
+  · simp only [hv, e1, e2, Bool.false_eq_true, if_false, if_true] at h
+    refine ⟨old.userLevel e.sender, ?_, Or.inl rfl⟩
+    by_cases hn : checkNotificationLevels (old.userLevel e.sender) old new = true
+    · exact hn
+    · simp [hn, notAllowed] at h
+  · simp only [hv, e3, e4, e5, Bool.false_eq_true, if_false, if_true] at h
+    cases hce : a.createEvent with
+    | none => simp [hce] at h
+    | some ce =>
+      simp only [hce] at h
+      cases hcc : decodeCreateContent ce.content with
+      | none => simp [hcc, notAllowed] at h
+      | some cc =>
+        simp only [hcc] at h
+        by_cases hcr : (ce.sender :: cc.additionalCreators).contains e.sender = true
+        · simp only [hcr, if_true] at h
+          refine ⟨creatorPowerLevel, ?_, Or.inr ⟨rfl, hv, ce, cc, rfl, hcc, ?_⟩⟩
+          · by_cases hn : checkNotificationLevels creatorPowerLevel old new = true
+            · exact hn
+            · simp [hn, notAllowed] at h
+          · simpa using hcr
+        · simp only [hcr, if_false] at h
+          refine ⟨old.userLevel e.sender, ?_, Or.inl rfl⟩
+          by_cases hn : checkNotificationLevels (old.userLevel e.sender) old new = true
+          · exact hn
+          · simp [hn, notAllowed] at h
+
+/-- **Version 10 and later, end to end**: a power-levels event the model of `powerLevelsEventAllowed` accepts in a room
+    version whose parser is parseIntegerPowerLevels contains no non-integer level. -/
+theorem accepted_pl_integer (a : Ctx) (e : Event) (row : VGen.VersionRow) (hrow : e.row = some row)
+    (hp : row.parsePowerLevelsFunc = "parseIntegerPowerLevels") (h : a.powerLevelsEventAllowed e = .ok ()) :
+    AuthRules.integerContent e.content = true := by
+  obtain ⟨newPL, L, hnew, _, _, _⟩ := (accepted_pl_no_escalation a e h).ex
+  unfold powerLevelsFromEvent at hnew
+  simp only [hrow, hp, beq_self_eq_true, if_true] at hnew
+  cases hq : parseIntegerPowerLevels e.content PowerLevels.defaults with
+  | none => simp [hq, notAllowed] at hnew
+  | some pl => exact integer_only_levels _ _ _ hq
+
+/-- the defect repaired in 548eba1, on the former failing input (old content `{users:{@a:50}}`, the creator adds
+    `notifications.room = 60`): refused at the level the old content gives the creator (`users_default` = 0), accepted at
+    the creators' level -/
+example :
+    let old : PowerLevels := { PowerLevels.defaults with users := [(b!"@a:hs1", 50)] }
+    let new : PowerLevels := { PowerLevels.defaults with users := [(b!"@a:hs1", 50)], notifications := [(b!"room", 60)] }
+    checkNotificationLevels (old.userLevel b!"@c:hs1") old new = false ∧ checkNotificationLevels creatorPowerLevel old new = true := by
+  decide
 
 /-- Non-vacuity of the history theorem's premises: a two-step chain under ceiling 100
     (a level-100 user promotes b to 50; b then lowers `kick` to 40). -/
